@@ -83,6 +83,8 @@ class Outcome:
         self.build_exc: Optional[BaseException] = None
         self.invoker: Optional[int] = None
         self.cache_path: Optional[str] = None
+        self.reconf_state: Any = None  # outcome of a configuration with an unusable entry (see execute)
+        self.mc_shown: Optional[int] = None
 
 
 def make_executor(b: Any, sel: Optional[Dict[str, Any]]) -> Any:
@@ -192,7 +194,45 @@ def execute(case: Dict[str, Any], M: Optional[Model] = None, built: Any = None, 
                     nodes.setdefault(s.lstrip(prog.MARK), {})["priority"] = p
                 for s, q in (case.get("reconf_seq") or {}).items():
                     nodes.setdefault(s.lstrip(prog.MARK), {})["is_sequential"] = q
-                b.dag.config_from_dict({"nodes": nodes})
+                bad = case.get("reconf_bad")
+                if bad and not case.get("nested"):
+                    # fault at a point: the LAST entry of this configuration is unusable, so the call is expected to
+                    # raise after it has looked at every other entry.  Refused or not, each attribute the API shows
+                    # afterwards is either the old or the new one (all old / all new decides the model, anything else is
+                    # reported) - never a third value
+                    conf2: Dict[str, Any] = {"nodes": dict(nodes)}
+                    if bad.get("site") is not None:
+                        conf2["nodes"][bad["site"].lstrip(prog.MARK)] = {"priority": bad["value"]}
+                    if bad.get("mc") is not None:
+                        conf2["max_concurrency"] = bad["mc"]  # (an unusable limit - 0, -1, "2" - when there is no bad["site"])
+                    ids_rb = b.node_ids()
+                    old_attr = {s_: (b.dag.get_node_by_id(i_).priority, b.dag.get_node_by_id(i_).is_sequential) for s_, i_ in ids_rb.items()}
+                    old_mc = b.dag.max_concurrency
+                    try:
+                        b.dag.config_from_dict(conf2)
+                        out.reconf_state = "accepted"
+                    except Exception as e_:  # noqa: BLE001
+                        new_attr = dict(old_attr)
+                        for s_, p_ in (case.get("reconf") or {}).items():
+                            new_attr[s_] = (p_, new_attr[s_][1])
+                        for s_, q_ in (case.get("reconf_seq") or {}).items():
+                            new_attr[s_] = (new_attr[s_][0], q_)
+                        shown = {s_: (b.dag.get_node_by_id(i_).priority, b.dag.get_node_by_id(i_).is_sequential) for s_, i_ in ids_rb.items()}
+                        mc_shown = b.dag.max_concurrency
+                        if mc_shown not in (old_mc, bad.get("mc", old_mc)) or any(shown[s_] not in (old_attr[s_], new_attr[s_]) for s_ in shown):
+                            out.reconf_state = ("third-state", f"{type(e_).__name__}: max_concurrency {old_mc} -> {mc_shown}, "
+                                                f"attributes {({s_: (old_attr[s_], shown[s_]) for s_ in shown if shown[s_] not in (old_attr[s_], new_attr[s_])})}")
+                        elif shown == new_attr and shown != old_attr:
+                            out.reconf_state = "refused-new"
+                        elif shown == old_attr:
+                            out.reconf_state = "refused-old"
+                        else:
+                            out.reconf_state = "refused-mixed"
+                        out.mc_shown = mc_shown
+                    if not isinstance(b.dag.max_concurrency, int) or b.dag.max_concurrency < 1:
+                        b.dag.max_concurrency = old_mc  # an unusable limit was stored as given: put a usable one back
+                else:
+                    b.dag.config_from_dict({"nodes": nodes})
             if built is None and derive == "deepcopy":
                 import copy as _copy
 
